@@ -161,9 +161,19 @@ static void *asm_mmap_file(char *asm_file, size_t *str_len) {
 
   // NOLINTNEXTLINE
   FAIL_SYS(fstat(fd, &file_stat), "failed to get file stats\n", MAP_FAILED);
-  // map file contents to a string
-  *str_len = file_stat.st_size;
-  void *str = mmap(NULL, *str_len, PROT_READ, MAP_PRIVATE, fd, 0);
+  // map file contents to a string: reserve one byte more than the file so
+  // that the text is always NUL-terminated (a plain file mapping is not when
+  // the size is a multiple of the page size, and an empty file cannot be
+  // mapped at all), then map the file over the start of the reservation
+  *str_len = file_stat.st_size + 1;
+  void *str =
+      mmap(NULL, *str_len, PROT_READ, MAP_PRIVATE | MAP_ANONYMOUS, -1, 0);
+  if (str != MAP_FAILED && file_stat.st_size > 0 &&
+      mmap(str, file_stat.st_size, PROT_READ, MAP_PRIVATE | MAP_FIXED, fd,
+           0) == MAP_FAILED) {
+    munmap(str, *str_len);
+    str = MAP_FAILED;
+  }
   close(fd);
   return str;
 }
